@@ -558,9 +558,17 @@ func c11Grid(c *core.Ctx, e *liquid.Engine, m *ref.Model, r *core.Rand, idx, L, 
 			ctl = gen.Continue{}
 		}
 		p := r.Range(1, L+1)
-		if r.Bool() {
-			f.Body = append(f.Body, gen.If{Conds: []gen.Expr{gen.Cmp{Op: "==", A: gen.Prop{X: gen.Var{Name: "forloop"}, Name: "index"}, B: intLit(p)}}, Bodies: [][]gen.Node{{ctl}}}, gen.Text{S: "."})
-		} else {
+		cond := gen.Cmp{Op: "==", A: gen.Prop{X: gen.Var{Name: "forloop"}, Name: "index"}, B: intLit(p)}
+		// what the branch has rendered before it interrupts the loop is output like anything else
+		before := [][]gen.Node{{ctl}, {gen.Text{S: "<stop "}, gen.Out{E: gen.Prop{X: gen.Var{Name: "forloop"}, Name: "index"}}, gen.Text{S: ">"}, ctl}}[r.Intn(2)]
+		switch r.Intn(4) {
+		case 0:
+			f.Body = append(f.Body, gen.If{Conds: []gen.Expr{cond}, Bodies: [][]gen.Node{before}}, gen.Text{S: "."})
+		case 1:
+			f.Body = append(f.Body, gen.If{Conds: []gen.Expr{gen.Lit{V: gen.Bool(false)}, cond}, Bodies: [][]gen.Node{{gen.Text{S: "never"}}, before}, HasElse: true, Else: []gen.Node{gen.Text{S: "-"}}}, gen.Text{S: "."})
+		case 2:
+			f.Body = append(f.Body, gen.Case{Subj: gen.Prop{X: gen.Var{Name: "forloop"}, Name: "index"}, Whens: [][]gen.Expr{{intLit(p)}}, Bodies: [][]gen.Node{before}, HasElse: true, Else: []gen.Node{gen.Text{S: "-"}}}, gen.Text{S: "."})
+		default:
 			f.Body = append(f.Body, ctl, gen.Text{S: "UNREACHED"})
 		}
 	}
